@@ -1,0 +1,28 @@
+package discovery
+
+import (
+	"github.com/thushan/olla/internal/core/domain"
+	"github.com/thushan/olla/internal/verifhook"
+)
+
+// verifOrder lets the deterministic simulator (build tag "verif") pin the order
+// of lists that are built by ranging over a Go map. Without the tag it returns
+// the list untouched.
+func verifOrder(endpoints []*domain.Endpoint) []*domain.Endpoint {
+	if !verifhook.Enabled || len(endpoints) < 2 {
+		return endpoints
+	}
+	keys := make([]string, len(endpoints))
+	for i, ep := range endpoints {
+		keys[i] = ep.URLString
+	}
+	perm := verifhook.Order(keys)
+	if len(perm) != len(endpoints) {
+		return endpoints
+	}
+	ordered := make([]*domain.Endpoint, len(endpoints))
+	for i, idx := range perm {
+		ordered[i] = endpoints[idx]
+	}
+	return ordered
+}
